@@ -25,7 +25,7 @@ def run(tier, seed):
     nviol += len(pv)
     # the simulator's OWN random stream (no injected draws): joint distribution of measured bits over thousands of real shots
     jstats, jviol = joint_common.run(tier)
-    mine = [v for v in jviol if v["property"] == PID]
+    mine = [v for v in jviol if PID in v["property"].split(",")]
     for k, v in enumerate(mine[:4]):
         out.violation(v["what"], v, "joint%d" % k)
     nviol += len(mine)
